@@ -220,24 +220,59 @@ def rule_p2(F):
         l = hir.res_local(hir.peel_refs(sc))
         init = ld.get(l)[1] if l is not None and ld.get(l) else sc
         call = [c for c in hir.nodes(init, "mcall") if c["m"] == "relative_associativity"]
-        ok = bool(call) and names(call[0]["recv"]) == {"prev"} and names(call[0]["args"][0]) == {"operator"}
+        ok = bool(call) and klass(be, ld, call[0]["recv"]) == {"PREV"} and klass(be, ld, call[0]["args"][0]) == {"OP"}
         r.inst("relative_associativity(prev, operator)")
         if not ok:
             r.bad(be.path, "relative_associativity operands", relfile(be.file), be.line, "the parser must ask prev.relative_associativity(&operator)")
     for c in hir.nodes(be.hir["value"], "call"):
         if (hir.call_def(c) or "").endswith("Expr::BinOp"):
-            rs = [names(a) for a in c["args"]]
+            rs = [klass(be, ld, a) for a in c["args"]]
             r.inst("Expr::BinOp wiring", {"args": [sorted(x) for x in rs]})
-            if rs != [{"lhs"}, {"operator"}, {"rhs"}]:
+            if rs != [{"LHS"}, {"OP"}, {"RHS"}]:
                 r.bad(be.path, "Expr::BinOp wiring", relfile(be.file), c["line"], "Expr::BinOp(lhs, operator, rhs) is not built in that order: %s" % [sorted(x) for x in rs])
     rec = [c for c in hir.nodes(be.hir["value"], "mcall") if c["m"] == "binop_expr"]
     for c in rec:
-        a0 = hir.result_desc(c["args"][0])
-        rs = names(c["args"][0])
+        rs = klass(be, ld, c["args"][0])
         r.inst("recursive lower bound")
-        if rs != {"operator"}:
+        if rs != {"OP"}:
             r.bad(be.path, "recursive lower bound", relfile(be.file), c["line"], "the right operand is parsed with %s as lower bound instead of the operator just consumed" % sorted(rs))
     return r
+
+
+PRODUCERS = {"peek_binop": "OP", "negation": "LHS", "binop_expr": "RHS"}
+
+
+def klass(b, ld, e):
+    """What the locals mentioned by `e` are, by where their value comes from (never by their names): PREV = the operator
+    parameter of binop_expr, OP = result of peek_binop(), LHS = result of negation() (or the running tree), RHS = result of
+    the recursive binop_expr()."""
+    out = set()
+    pidx = hir.param_index(b.hir)
+    for n in hir.walk(e):
+        if n.get("k") != "path" or hir.res_local(n) is None:
+            continue
+        l = hir.res_local(n)
+        seen = set()
+        while True:
+            if l in pidx:
+                out.add("PREV" if pidx[l] == 1 else "PARAM%d" % pidx[l])
+                break
+            d = ld.get(l)
+            if d is None or d[1] is None or l in seen:
+                out.add("?")
+                break
+            seen.add(l)
+            init = d[1]
+            ms = [c["m"] for c in hir.nodes(init, "mcall") if c["m"] in PRODUCERS]
+            if ms:
+                out.add(PRODUCERS[ms[0]])
+                break
+            nxt = hir.res_local(hir.peel_refs(hir.strip(init)))
+            if nxt is None:
+                out.add("?")
+                break
+            l = nxt
+    return out
 
 
 def names(e):
